@@ -21,3 +21,6 @@ FAMILIES = {
 
 def run(ctx):
     _c01.run(ctx, pid=PID, families=FAMILIES[PID])
+    # plugin-level stage: the real output plugins' own failure classification (EsSplit.tla + generic retry family)
+    import c09_outputs
+    c09_outputs.stage(ctx)
